@@ -2,6 +2,7 @@ package main
 
 import (
 	"fmt"
+	"math"
 	"strconv"
 	"strings"
 
@@ -118,7 +119,7 @@ func primGen(seed uint64, tier string) {
 			if r.Intn(3) == 0 {
 				sz = r.Intn(1200)
 			}
-			proto.Reply("mapclear %s %d %d", proto.Pick(r, []string{"u64", "str", "struct", "named"}), sz, r.Intn(1000))
+			proto.Reply("mapclear %s %d %d", proto.Pick(r, []string{"u64", "str", "struct", "named", "f64", "iface", "fstruct"}), sz, r.Intn(1000))
 		default:
 			proto.Reply("dec %d", boundary64(r))
 		}
@@ -183,6 +184,65 @@ func mapclearOne(kind string, n int, seed int) string {
 		l1 := len(m)
 		m["q"] = []byte{1}
 		return check(l0, l1, len(m["q"]) == 1 && len(m) == l1+1)
+	}
+	return mapclearFloat(kind, n, seed, check)
+}
+
+type fkey struct {
+	x   float64
+	tag uint64
+}
+
+// Keys whose == is not reflexive (a float NaN differs from itself, also inside an interface or a struct key):
+// every third key is a NaN; the map must still end empty.
+func mapclearFloat(kind string, n int, seed int, check func(int, int, bool) string) string {
+	nan := math.NaN()
+	switch kind {
+	case "f64":
+		m := map[float64]uint64{}
+		for i := 0; i < n; i++ {
+			if i%3 == 1 {
+				m[nan] = uint64(i)
+			} else {
+				m[float64(i)*1.5+float64(seed)] = uint64(i)
+			}
+		}
+		l0 := len(m)
+		machine.MapClear(m)
+		l1 := len(m)
+		m[2.5] = 6
+		return check(l0, l1, m[2.5] == 6 && len(m) == l1+1)
+	case "iface":
+		m := map[interface{}]string{}
+		for i := 0; i < n; i++ {
+			switch i % 3 {
+			case 0:
+				m[uint64(i*7+seed)] = "n"
+			case 1:
+				m[nan] = "nan"
+			default:
+				m[fmt.Sprint(i, seed)] = "s"
+			}
+		}
+		l0 := len(m)
+		machine.MapClear(m)
+		l1 := len(m)
+		m["x"] = "y"
+		return check(l0, l1, m["x"] == "y" && len(m) == l1+1)
+	case "fstruct":
+		m := map[fkey]bool{}
+		for i := 0; i < n; i++ {
+			if i%3 == 1 {
+				m[fkey{nan, uint64(i)}] = true
+			} else {
+				m[fkey{float64(i), uint64(seed)}] = true
+			}
+		}
+		l0 := len(m)
+		machine.MapClear(m)
+		l1 := len(m)
+		m[fkey{1, 2}] = true
+		return check(l0, l1, m[fkey{1, 2}] && len(m) == l1+1)
 	}
 	return "bad-op"
 }
